@@ -362,7 +362,12 @@ func (h *handler) handleMessage(ctx context.Context, msg hwebsocket.Msg, respond
 }
 
 func (h *handler) disconnect(err error) {
-	h.disconnectChan <- err
+	// Only the first cause is acted upon, and reporting one must never block: the main loop
+	// reports handler errors itself and is the only reader of this channel.
+	select {
+	case h.disconnectChan <- err:
+	default:
+	}
 }
 
 func (h *handler) handleDisconnect(err error) {
